@@ -25,7 +25,8 @@ def register(reg):
     reg.add(Contract(
         "seq.utils.revolver_parameters",
         params=[("wd", "real"), ("rd", "real"), ("uf", "real"), ("ub", "real")],
-        returns="dict",
+        returns=("dict", {"uf": "real", "ub": "real", "up": "int", "wd": "real", "rd": "real", "mx": "none",
+                          "one_read_disk": "bool", "fast": "bool", "concat": "int", "print_table": "str"}),
         ensures=[("uf", "result['uf'] == uf"), ("ub", "result['ub'] == ub"), ("wd", "result['wd'] == wd"),
                  ("rd", "result['rd'] == rd"), ("one_read_disk", "result['one_read_disk'] == True"),
                  ("mx_default", "result['mx'] is None"), ("not_fast", "result['fast'] == False"),
